@@ -528,7 +528,7 @@ impl<'a> Model<'a> {
 
         if let Some((width, height)) = array {
             // We are moving an array formula, we need to move the whole range
-            self.set_user_array_formula(
+            self.set_array_formula_unchecked(
                 sheet,
                 target_row,
                 target_column,
@@ -1210,7 +1210,7 @@ impl<'a> Model<'a> {
                     .worksheet_mut(sheet)?
                     .update_cell(r, target_column, cell)?;
             } else if let Some(a) = array {
-                self.set_user_array_formula(sheet, r, target_column, a.0, a.1, &value)?;
+                self.set_array_formula_unchecked(sheet, r, target_column, a.0, a.1, &value)?;
             } else {
                 self.set_user_input(sheet, r, target_column, value)?;
             }
@@ -1343,7 +1343,7 @@ impl<'a> Model<'a> {
                     .worksheet_mut(sheet)?
                     .update_cell(target_row, c, cell)?;
             } else if let Some(array_range) = array {
-                self.set_user_array_formula(
+                self.set_array_formula_unchecked(
                     sheet,
                     target_row,
                     c,
